@@ -10,18 +10,23 @@ import (
 	"github.com/mithrandie/csvq/lib/value"
 )
 
-var verifC20Select, verifC20Update, verifC20Commit, verifC20Rollback []parser.Statement
+var verifC20Select, verifC20SelectSub, verifC20Update, verifC20Commit, verifC20Rollback []parser.Statement
 
 func VerifC20Setup() {
 	verifC20Select = verifParse("select v from t;")
+	verifC20SelectSub = verifParse("select v from (select v from t) s;")
 	verifC20Update = verifParse("update t set v = v || '!' where id = 1;")
 	verifC20Commit = verifParse("commit;")
 	verifC20Rollback = verifParse("rollback;")
 }
 
-func verifC20Read(proc *Processor) (string, bool) {
+func verifC20Read(proc *Processor, sub bool) (string, bool) {
 	proc.Tx.SelectedViews = nil
-	_, err := proc.Execute(ContextForStoringResults(verifCtx()), verifC20Select)
+	stmts := verifC20Select
+	if sub {
+		stmts = verifC20SelectSub // the table read through a subquery in the FROM clause
+	}
+	_, err := proc.Execute(ContextForStoringResults(verifCtx()), stmts)
 	if err != nil || len(proc.Tx.SelectedViews) != 1 || proc.Tx.SelectedViews[0].RecordLen() != 1 {
 		return "", false
 	}
@@ -32,7 +37,7 @@ func verifC20Read(proc *Processor) (string, bool) {
 	return s.Raw(), true
 }
 
-// A history of up to 4 steps on one CSV file in the modelled file system - SELECT, UPDATE, COMMIT,
+// A history of 4 steps (thorough 5), followed by a final read and COMMIT, on one CSV file in the modelled file system - SELECT (of the table or of a subquery on it), UPDATE, COMMIT,
 // ROLLBACK, and "another process replaces the file" (possible only while this transaction holds no
 // update lock) - run by the real Processor, loaders, cache and lib/file code: every read returns
 // the data first loaded plus the transaction's own changes; the only reload is the first
@@ -47,12 +52,12 @@ func VerifC20Stable() {
 	locked := false  // this transaction holds the table for update
 	changed := false // uncommitted own change
 	gen := 0
-	steps := verifBound(3, 4)
+	steps := verifBound(4, 5)
 	for s := 0; s < steps; s++ {
-		op := verifChoice("step", 5)
+		op := verifChoice("step", 6)
 		switch op {
-		case 0: // SELECT
-			got, ok := verifC20Read(proc)
+		case 0, 5: // SELECT, directly or through a subquery in FROM
+			got, ok := verifC20Read(proc, op == 5)
 			verifAssert("select succeeds", ok)
 			if seen == "" {
 				seen = disk
@@ -88,6 +93,20 @@ func VerifC20Stable() {
 		}
 		verifAssert("file holds the last committed version", verifFileRead("t.csv") == "id,v\n1,"+disk+"\n")
 	}
+	// whatever the history was: one more read sees the loaded data plus own changes (or the file),
+	// and a final COMMIT writes exactly that
+	got, ok := verifC20Read(proc, false)
+	verifAssert("final select succeeds", ok)
+	if seen == "" {
+		seen = disk
+	}
+	verifAssert("the final read sees the data first loaded plus own changes", got == seen)
+	_, err := proc.Execute(verifCtx(), verifC20Commit)
+	verifAssert("final commit succeeds", err == nil)
+	if changed {
+		disk = seen
+	}
+	verifAssert("file holds the last committed version after the final commit", verifFileRead("t.csv") == "id,v\n1,"+disk+"\n")
 	_ = proc.AutoRollback()
 	_ = proc.ReleaseResourcesWithErrors()
 	verifAssert("no control files remain", !verifFileExists(".t.csv.lock") && !verifFileExists(".t.csv.temp"))
